@@ -219,6 +219,7 @@ func (r *replicateChannelManager) startReadCollectionForKafka(ctx context.Contex
 
 func (r *replicateChannelManager) startReadCollectionForMilvus(ctx context.Context, info *pb.CollectionInfo, sourceDBInfo *model.DatabaseInfo) (*model.CollectionInfo, error) {
 	var err error
+	alreadyReplicated := false
 	retryErr := retry.Do(ctx, func() error {
 		_, err = r.targetClient.GetCollectionInfo(ctx, info.Schema.GetName(), sourceDBInfo.Name)
 		if err != nil && !IsCollectionNotFoundError(err) && !IsDatabaseNotFoundError(err) {
@@ -228,7 +229,8 @@ func (r *replicateChannelManager) startReadCollectionForMilvus(ctx context.Conte
 		_, ok := r.replicateCollections[info.ID]
 		r.collectionLock.RUnlock()
 		if ok {
-			return errors.Newf("the collection has been replicated, wait it [collection name: %s] to drop...", info.Schema.Name)
+			// this very collection (same id) is being replicated already: a second notification has no further effect
+			alreadyReplicated = true
 		}
 		// collection not found will exit the retry
 		return nil
@@ -236,6 +238,10 @@ func (r *replicateChannelManager) startReadCollectionForMilvus(ctx context.Conte
 
 	if retryErr != nil {
 		return nil, retryErr
+	}
+	if alreadyReplicated {
+		log.Info("the collection is already replicated", zap.Int64("collection_id", info.ID), zap.String("collection_name", info.Schema.Name))
+		return nil, nil
 	}
 	if r.isDroppedCollection(info.ID) {
 		// the drop of this very collection was replayed while we were waiting for it: the (stale) info must not re-create it
